@@ -12,52 +12,86 @@ variable {K : Type} [Add K] [Sub K] [Mul K] [Div K] [Neg K] [OfNat K 0] [OfNat K
 @[inline] def get (a : Array K) (n i j : Nat) : K := a[i * n + j]!
 @[inline] def set (a : Array K) (n i j : Nat) (x : K) : Array K := a.set! (i * n + j) x
 
-/-- `_vnacommon_lu`: Crout LU with the C's pivot rule (row_scale[i] * |s|, strict >, first best).
-    Returns (factored a, row_index, determinant). -/
-def lu (mag : K → Float) (a0 : Array K) (n : Nat) : Array K × Array Nat × K := Id.run do
-  let mut a := a0
-  let mut d : K := 1
+/-- inner product loop of `_vnacommon_lu`: `s = a[i][j]; for (k = 0; k < lim; ++k) s -= a[i][k] * a[k][j];` -/
+def dotSub (a : Array K) (n i j : Nat) : Nat → K
+  | 0 => get a n i j
+  | k + 1 => dotSub a n i j k - get a n i k * get a n k j
+
+/-- rows 0..cnt-1 of column j (the U part): `a[i][j] -= Σ_{k<i} a[i][k] a[k][j]`, ascending i -/
+def upper (n j : Nat) : Nat → Array K → Array K
+  | 0, a => a
+  | i + 1, a =>
+    let a' := upper n j i a
+    set a' n i j (dotSub a' n i j i)
+
+/-- rows j..j+cnt-1 of column j: `a[i][j] -= Σ_{k<j} a[i][k] a[k][j]`, and the pivot search
+    (row_scale[i] * |s|, strict >, first best).  Returns (a, best, bestV). -/
+def lower (mag : K → Float) (rowScale : Array Float) (n j : Nat) : Nat → Array K → Array K × Nat × Float
+  | 0, a => (a, j, 0.0)
+  | m + 1, a =>
+    let (a', best, bestV) := lower mag rowScale n j m a
+    let i := j + m
+    let s := dotSub a' n i j j
+    let a'' := set a' n i j s
+    let t := rowScale[i]! * mag s
+    if t > bestV then (a'', i, t) else (a'', best, bestV)
+
+/-- exchange the first cnt columns of rows r1 and r2 -/
+def swapRows (n r1 r2 : Nat) : Nat → Array K → Array K
+  | 0, a => a
+  | k + 1, a =>
+    let a' := swapRows n r1 r2 k a
+    let t := get a' n r1 k
+    set (set a' n r1 k (get a' n r2 k)) n r2 k t
+
+/-- rows j+1..j+cnt of column j multiplied by `scale` -/
+def scaleCol (n j : Nat) (scale : K) : Nat → Array K → Array K
+  | 0, a => a
+  | m + 1, a =>
+    let a' := scaleCol n j scale m a
+    set a' n (j + 1 + m) j (get a' n (j + 1 + m) j * scale)
+
+/-- row_scale[i] = max_j |a[i][j]| -/
+def rowScales (mag : K → Float) (a : Array K) (n : Nat) : Array Float := Id.run do
   let mut rowScale : Array Float := Array.replicate n 0.0
-  let mut rowIndex : Array Nat := Array.range n
   for i in [0:n] do
     let mut mx : Float := 0.0
     for j in [0:n] do
       let t := mag (get a n i j)
       if t > mx then mx := t
     rowScale := rowScale.set! i mx
-  for j in [0:n] do
-    let mut best := j
-    let mut bestV : Float := 0.0
-    for i in [0:j] do
-      let mut s := get a n i j
-      for k in [0:i] do
-        s := s - get a n i k * get a n k j
-      a := set a n i j s
-    for i in [j:n] do
-      let mut s := get a n i j
-      for k in [0:j] do
-        s := s - get a n i k * get a n k j
-      a := set a n i j s
-      let t := rowScale[i]! * mag s
-      if t > bestV then
-        best := i
-        bestV := t
+  return rowScale
+
+structure LUState (K : Type) where
+  a : Array K
+  rowIndex : Array Nat
+  rowScale : Array Float
+  d : K
+
+/-- one column of the Crout loop -/
+def colStep (mag : K → Float) (n : Nat) (st : LUState K) (j : Nat) : LUState K :=
+  let a1 := upper n j j st.a
+  let (a2, best, _) := lower mag st.rowScale n j (n - j) a1
+  let st3 : LUState K :=
     if best != j then
-      for k in [0:n] do
-        let t := get a n best k
-        a := set a n best k (get a n j k)
-        a := set a n j k t
-      let it := rowIndex[best]!
-      rowIndex := rowIndex.set! best rowIndex[j]!
-      rowIndex := rowIndex.set! j it
-      rowScale := rowScale.set! best rowScale[j]!
-      d := d * (-(1 : K))
-    d := d * get a n j j
-    if j + 1 != n then
-      let scale := (1 : K) / get a n j j
-      for i in [j+1:n] do
-        a := set a n i j (get a n i j * scale)
-  return (a, rowIndex, d)
+      { a := swapRows n best j n a2,
+        rowIndex := (st.rowIndex.set! best st.rowIndex[j]!).set! j st.rowIndex[best]!,
+        rowScale := st.rowScale.set! best st.rowScale[j]!,
+        d := st.d * (-(1 : K)) }
+    else { st with a := a2 }
+  let d := st3.d * get st3.a n j j
+  let a4 := if j + 1 != n then scaleCol n j ((1 : K) / get st3.a n j j) (n - (j + 1)) st3.a else st3.a
+  { st3 with a := a4, d := d }
+
+def luLoop (mag : K → Float) (n : Nat) : Nat → LUState K → LUState K
+  | 0, st => st
+  | j + 1, st => colStep mag n (luLoop mag n j st) j
+
+/-- `_vnacommon_lu`: Crout LU with the C's pivot rule (row_scale[i] * |s|, strict >, first best).
+    Returns (factored a, row_index, determinant). -/
+def lu (mag : K → Float) (a0 : Array K) (n : Nat) : Array K × Array Nat × K :=
+  let st := luLoop mag n n { a := a0, rowIndex := Array.range n, rowScale := rowScales mag a0 n, d := 1 }
+  (st.a, st.rowIndex, st.d)
 
 /-- `_vnacommon_mldivide`: X = A⁻¹ B, A m×m, B m×n. Returns (X, determinant). -/
 def mldivide (mag : K → Float) (a0 : Array K) (b : Array K) (m n : Nat) : Array K × K := Id.run do
